@@ -1,6 +1,6 @@
-\* as-found behaviour of snapshot 3b65494 (D6, D6b): J1 is EXPECTED to fail AuthSound here (the check uses it as a discrimination test)
+\* a router that remembers lease ids per URL coordinates (seeded C09-4): EXPECTED to fail SeqSound (discrimination test)
 CONSTANTS
-  Impl = "asfound"
+  Impl = "intended"
   CNs = {"X", "bad"}
   Issuers = {"self", "other"}
   Serials = {"s1", "s2"}
@@ -24,7 +24,7 @@ CONSTANTS
   Tickets = TRUE
   Changes = {"none", "revoke"}
   Presents = {"same", "nocert"}
-  Memory = FALSE
+  Memory = TRUE
 INIT Init
 NEXT Next
-INVARIANTS AuthSound VpcSound ScopeSound Complete ResumeSound ResumeScope SeqSound
+INVARIANTS SeqSound
